@@ -423,6 +423,11 @@ func (g *Gen) items(b *BodySpec, depth int, pathPrefix string) []*Item {
 		}
 		noise()
 		ex := g.exprFor(a.Cons, 0)
+		if len(a.Hooks) > 0 && depth == 0 && g.P.Multibyte && !g.P.JSONTwin && g.chance(0.3) {
+			// a hook-backed string written over several lines, with characters of
+			// more than one byte left of where the cursor will be
+			ex = &Expr{K: "heredoc", S: "líne öne ✓\nline twö 日本\n"}
+		}
 		out = append(out, &Item{Attr: &AttrItem{Name: a.Name, Expr: ex}})
 		if a.Addr != nil {
 			g.lastExpr = ex
